@@ -82,6 +82,8 @@ def run(ctx):
     ctx.do(rule_no_hidden_state, "C04.history-independence")
     from .pitfalls import rule_loops_not_cut_short
     ctx.do(rule_loops_not_cut_short, "C04.loops-complete")
+    from .pitfalls import rule_definite_assignment
+    ctx.do(rule_definite_assignment, "C04.definite-assignment")
 
 
 def stores_self_switch(prog, cls):
